@@ -14,6 +14,8 @@
 //! * `effect_operand`: the other operand positions (scalar → vector casts, constructors, swizzles of scalars, compound
 //!   assignment and `++` on subscripted places, swizzled stores, `?:`, built-ins incl. `select` / `mul`, inout arguments,
 //!   methods of subscripted objects, matrix from a scalar) with an effect in the operand that a rewriting would repeat.
+//! * `rem_assign`: `%=` on floating-point targets, which the exporter rewrites to `a = metal::fmod(a, b)` (the target twice)
+//!   for plain places and refuses otherwise (fix 92d66eb).
 #![allow(dead_code)]
 use crate::util::Rng;
 
@@ -180,7 +182,7 @@ pub fn struct_cast_fixed(rng: &mut Rng, fixed: Option<(&'static str, bool, u32, 
 }
 
 /// an operand with an effect in a position the exporter emits once today
-pub const STATEMENTS: u64 = 24;
+pub const STATEMENTS: u64 = 25;
 const INT_OPS: [&str; 10] = ["+=", "-=", "*=", "/=", "%=", "&=", "|=", "^=", "<<=", ">>="];
 const FLOAT_OPS: [&str; 5] = ["+=", "-=", "*=", "/=", "%="];
 /// the statements that contain a compound assignment
@@ -232,12 +234,83 @@ pub fn effect_operand_fixed(rng: &mut Rng, fixed: Option<(&'static str, u64, &'s
         21 if k == "float" => ("float3x3 mm = float3x3(v, r, v);\n    r = mul(mm, r + (float3)(x++)) + mul(r * bump(y), transpose(mm));".to_string(), "mul:operand-increment"),
         22 => (format!("r[(i++) & 1] {} bump(y);", aop), "compound-assign:vector-element-index-increment"),
         23 if k == "float" => ("r.x = abs(x++) + dot(r, (float3)bump(y));".to_string(), "builtin:abs-dot"),
+        // the two operands with an effect depend on each other: `select`'s operands are emitted in reverse order
+        24 => (format!("r = select(bool3(b, !b, b), r + ({}3)(x++), ({}3)bump(x));", k, k), "builtin:select-dependent-operands"),
         _ => (format!("r.x = abs(({})(x++)) + max(next(3), i++);", if k == "uint" { "int" } else { k }), "builtin:abs-max"),
     };
     out.push_str(&format!("    {}\n", st));
     out.push_str(&format!("    return r + x + lc + ({})i;\n}}\n", k));
     let optag = if COMPOUND.contains(&which) { format!(":{}", aop) } else { String::new() };
     (out, format!("d:effect:{}{}", tag, optag))
+}
+
+/// floating-point `%=`: Metal has no `%` on floats, so since fix 92d66eb the exporter writes `a %= b` as `a = metal::fmod(a, b)`
+/// — the TARGET twice, and read BEFORE the right operand runs — when `is_plain_place` accepts the target (variables, members,
+/// swizzles, elements with an index built from variables, literals, casts and arithmetic) and `is_free_of_writes` the right
+/// operand (fix 35faaaa: no call, assignment, increment, sequence), and refuses the module otherwise
+/// (`ComplexRemainderAssignment`: outside the property).  Every accepted kind of target and every refused one × right operands
+/// that are free of writes (variables, arithmetic, `?:`, elements, constructors) and that write (calls, assignment, `++` — also
+/// of the target itself: `gk %= bump(y)`, `lc %= (lc = …)`, `x %= x++`).
+pub const REM_TARGETS: u64 = 21;
+pub const REM_RHS: u64 = 8;
+
+pub fn rem_assign(rng: &mut Rng) -> (String, String) {
+    let (t, r) = (rng.below(REM_TARGETS), rng.below(REM_RHS));
+    rem_assign_fixed(rng, t, r)
+}
+
+pub fn rem_assign_fixed(rng: &mut Rng, target: u64, rhs: u64) -> (String, String) {
+    let k = "float";
+    let mut out = preamble(k, rng);
+    out.push_str("struct M\n{\n    float3 v;\n    float s;\n    float3 sum()\n    {\n        return v + s;\n    }\n    void wrap(float d)\n    {\n        s %= d;\n        v %= d;\n    }\n};\n");
+    let params = "float x, float y, float arr[4], inout int i, int j, I2 parr[2], float3 v, float3 varr[2], M marr[2], bool b";
+    out.push_str(&format!("float3 fr({})\n{{\n    float3 r = v;\n    float lc = y + 0.5f;\n", params));
+    // (target, statement that folds the written place into the result, tag, the variable an effect of the right operand must not touch)
+    let (t, fold, ttag, avoid): (&str, &str, &str, &str) = match target {
+        0 => ("x", "", "plain:parameter", "x"),
+        1 => ("gk", "", "plain:static", "gk"),
+        2 => ("lc", "", "plain:local", "lc"),
+        3 => ("arr[i & 3]", "r.x = arr[0] + arr[1] + arr[2] + arr[3];", "plain:element", ""),
+        4 => ("arr[2]", "r.x = arr[0] + arr[1] + arr[2] + arr[3];", "plain:element-const", ""),
+        5 => ("arr[(j + 1) & 3]", "r.x = arr[0] + arr[1] + arr[2] + arr[3];", "plain:element-arithmetic-index", ""),
+        6 => ("parr[i & 1].q", "r.y = parr[0].q + parr[1].q;", "plain:member-of-element", ""),
+        7 => ("r", "", "plain:vector", ""),
+        8 => ("r.xy", "", "plain:swizzle", ""),
+        9 => ("r.y", "", "plain:component", ""),
+        10 => ("varr[i & 1].zx", "r = varr[0] + varr[1];", "plain:swizzle-of-element", ""),
+        11 => ("marr[j & 1].s", "r = marr[0].sum() + marr[1].sum();", "plain:member-of-object-element", ""),
+        12 => ("r[i & 1]", "", "plain:vector-element", ""),
+        13 => ("arr[((uint)i) & 3u]", "r.x = arr[0] + arr[1] + arr[2] + arr[3];", "plain:element-cast-index", ""),
+        14 => ("arr[-(-j) & 3]", "r.x = arr[0] + arr[1] + arr[2] + arr[3];", "plain:element-unary-index", ""),
+        15 => ("arr[(i++) & 3]", "r.x = arr[0] + arr[1] + arr[2] + arr[3];", "refused:element-index-increment", ""),
+        16 => ("arr[next(4)]", "r.x = arr[0] + arr[1] + arr[2] + arr[3];", "refused:element-index-call", ""),
+        17 => ("arr[b ? 1 : 2]", "r.x = arr[0] + arr[1] + arr[2] + arr[3];", "refused:element-index-ternary", ""),
+        18 => ("parr[next(2)].q", "r.y = parr[0].q + parr[1].q;", "refused:member-of-element-index-call", ""),
+        19 => ("arr[min(i, 3)]", "r.x = arr[0] + arr[1] + arr[2] + arr[3];", "refused:element-index-builtin", ""),
+        // MemberVariable targets: inside a method
+        _ => ("", "r = marr[0].sum() + marr[1].sum();", "plain:member-variable", ""),
+    };
+    let _ = avoid;
+    let (e, etag): (&str, &str) = match rhs {
+        0 => ("y", "free:parameter"),
+        1 => ("(x + y + 1.5f)", "free:arithmetic"),
+        2 => ("(b ? x : arr[j & 3])", "free:ternary-element"),
+        3 => ("float3(x, y, lc).y", "free:swizzle-of-constructor"),
+        4 => ("bump(y)", "writes:call-bumps-static"),
+        5 => ("(lc = y + 2.0f)", "writes:assignment-to-local"),
+        6 => ("(float)(next(3) + 1)", "writes:call-bumps-counter"),
+        _ => ("x++", "writes:increment"),
+    };
+    if target >= 20 {
+        out.push_str(&format!("    marr[j & 1].wrap({});\n", e));
+    } else {
+        out.push_str(&format!("    {} %= {};\n", t, e));
+    }
+    if !fold.is_empty() {
+        out.push_str(&format!("    {}\n", fold));
+    }
+    out.push_str("    return r + x + lc + gk + (float)i;\n}\n");
+    (out, format!("d:rem:{}:{}", ttag, etag))
 }
 
 /// the enumerated part of the family: every compound operator at every place with an effect in the target, every other
@@ -273,13 +346,18 @@ pub fn enumerated(idx: u64, rng: &mut Rng) -> Option<(String, String)> {
         let k = KINDS[((n / 2) % 3) as usize];
         return Some(struct_cast_fixed(rng, Some((k, four, class, w))));
     }
+    n -= total * 2;
+    // floating-point `%=`: every target × every right operand
+    if n < REM_TARGETS * REM_RHS {
+        return Some(rem_assign_fixed(rng, n / REM_RHS, n % REM_RHS));
+    }
     None
 }
 
 /// number of programs `enumerated` produces
 pub fn enumerated_len() -> u64 {
     let per = (INT_OPS.len() + FLOAT_OPS.len()) as u64;
-    per * COMPOUND.len() as u64 + (STATEMENTS - COMPOUND.len() as u64) * 3 + OPERANDS.iter().sum::<u64>() * 2
+    per * COMPOUND.len() as u64 + (STATEMENTS - COMPOUND.len() as u64) * 3 + OPERANDS.iter().sum::<u64>() * 2 + REM_TARGETS * REM_RHS
 }
 
 /// the `idx`-th program of the family: the enumerated part first, then random ones
@@ -287,5 +365,9 @@ pub fn dup_program(idx: u64, rng: &mut Rng) -> (String, String) {
     if let Some(p) = enumerated(idx, rng) {
         return p;
     }
-    if rng.chance(3, 5) { struct_cast(rng) } else { effect_operand(rng) }
+    match rng.below(10) {
+        0..=4 => struct_cast(rng),
+        5..=7 => effect_operand(rng),
+        _ => rem_assign(rng),
+    }
 }
